@@ -337,6 +337,8 @@ def classify(unit, res):
         txt = ""
         if site and site.get("text"):
             txt = site["text"][0]["text"].strip()
+        if cl is None and fn_id and str(fn_id).startswith("template::") and str(fn_id)[10:] in set(unit.sc.get("aux_lemmas", [])):
+            tag = "auxiliary"   # a lemma of the shared template that belongs to another property's statement
         if "/*@aux-hint*/" in txt and cl is None:
             tag = "auxiliary"
             ob = f"{fn_id or 'template'}.aux_hint"
